@@ -28,7 +28,8 @@ def crash_or_fail(ctx, rc, out, what):
 
 # ------------------------------------------------------------------ storage engine family
 KV_RULE = ("programs = operation paths exported by TLC from KVStore.tla (one per distinct model state) "
-           "+ seeded random programs + churn programs, executed on the real internal/kvstore; a program is "
+           "+ seeded random programs + churn programs (uniform or skewed key choice, recycled tables freed at once or kept for an hour, Put or "
+           "PutRaw) + programs with default-size tables and entries of 40-520 KiB, executed on the real internal/kvstore; a program is "
            "non-trivial if the store grew to >= 2 tables or a compaction step moved entries; distinct = "
            "distinct (table size, operation sequence)")
 
@@ -282,7 +283,8 @@ def c09(ctx):
                         "interval is admitted both ways (no tuning constant)"]
     rule = ("micro-scenarios per key: ttl set through EX/PX/EXAT/PXAT (optionally with NX), a later Expire/PExpire, or the DMap's default TTL; "
             "2-4 follow-ups (Get, Put NX, Put XX, Expire, GetPut, plain Put, Incr) placed 55/30 ms before and 12/35/90 ms after the deadline, "
-            "a final read; random entry path per key; N=3, R in {1,2}; every history is non-trivial (operations fall within one ttl of the deadline)")
+            "a final read; random entry path per key; N=3, R in {1,2}; every history is non-trivial (operations fall within one ttl of the deadline)"
+            + "; keys with an hour to live (every option form) sharing small tables with deleted fillers while the compaction timer runs; a dozen keys of one partition expiring together and rewritten a few ms later while the eviction workers are slowed down at their trace points")
     return reg_run(ctx, "TestC09", "c09.ndjson", "c09.summary.json",
                    {"VERIF_ROUNDS": 2 if quick else 25, "VERIF_PER_BATCH": 40 if quick else 60},
                    [], rule, "expiry visibility", tags_of=ttl_tags)
@@ -295,7 +297,7 @@ def c08(ctx):
                         "it must not return before its deadline minus 5 ms (timer granularity)"]
     rule = ("per key 2-3 competing lockers on random entry paths (embedded on any member, cluster client, raw RESP), with/without timeout "
             "(150/300 ms), waiter deadlines 100/250/500 ms, then hold+unlock, lease+unlock, expiry + stale token unlock/lease, double unlock; "
-            "forged tokens over RESP; a late comer after every timeout; expiry races: the holder's Unlock / Lease is held by a gate at the point "
+            "forged tokens over RESP; a late comer after every timeout; rounds of 4-8 lockers on a fresh key released at the same instant; expiry races: the holder's Unlock / Lease is held by a gate at the point "
             "between its token check and its effect (unlock.checked / lease.checked) until the lock has timed out and a competitor has taken it, "
             "then a third client tries - the schedule of TLC's counterexample for LockSpec_old.cfg; non-trivial = two calls on the key overlap in time")
     # the two-step Unlock/Lease of the code as found violates mutual exclusion (D25, repaired); the repaired design does not
@@ -367,7 +369,8 @@ def c04(ctx):
     rule = ("seeded random sequences of 2-4 mutating operations on one key (Put with NX/XX and EX/PX, Expire/PExpire, GetPut, Delete, Incr, Decr, "
             "Lock/Lease/Unlock, expiry followed by the background sampler's eviction), each operation on a random entry path, N=3, R in {2,3}, "
             "single- and multi-table fragments; after every reply the copy in every member's primary and backup fragment is logged; "
-            "distinct = distinct (key kind, operation, reply, path) sequences; every sequence changes the stored entry")
+            "distinct = distinct (key kind, operation, reply, path) sequences; every sequence changes the stored entry"
+            + "; entries about as large as a storage table; rounds of 3-5 concurrent mutating operations (and lock hand-overs to a waiter) on one key with the copies compared once all have returned; janitor and compaction timers run in the small-table cluster")
     design = [("DMapKeyMC", "DMapKey_quick.cfg" if quick else "DMapKey_thorough.cfg", {"timeout": 1500})]
     return det_run(ctx, "reg", "TestC04", "c04.ndjson", "c04.summary.json", "ReplicaTrace", "ReplicaTrace.cfg",
                    {"VERIF_SEQUENCES": 60 if quick else 1500}, design, rule, "backup mirrors primary", tags_of=last_op_tags)
@@ -387,7 +390,8 @@ def c05(ctx):
     rule = ("every (R, W, RQ) with 1 <= W, RQ <= R <= 3 x every set of unreachable backup owners (one 3-member cluster each): Get on keys present "
             "everywhere / only on the owner / only on backups / on owner and one backup / nowhere and Put on existing and new keys, through embedded, "
             "RESP and cluster-client paths, reply judged against the white-box number of copies; member-count quorum 2 and 3 probed with 14 commands and "
-            "NewDMap while members leave; non-trivial = the number of copies is within one of the quorum; quick runs a seeded third of the configurations")
+            "NewDMap while members leave; non-trivial = the number of copies is within one of the quorum; quick runs a seeded third of the configurations"
+            + "; below the member-count quorum the embedded client opens a fresh DMap name, the name the member has served commands for and a name opened while the quorum was met")
     design = [("Quorum", "Quorum.cfg", {})]
     return det_run(ctx, "reg", "TestC05", "c05.ndjson", "c05.summary.json", "QuorumTrace", "QuorumTrace.cfg",
                    {"VERIF_FRACTION": 34 if quick else 100}, design, rule, "quorum enforcement", tags_of=c05_tags)
@@ -487,7 +491,8 @@ def c16(ctx):
             "member of the slot's alphabet (numbers: empty, 0, 1, -1, 1e400, 2^63, 2^64, -2^63-1, NaN, abc, 0.01, 1.5; partition ids 0, P-1, P, P+1, 2^64-1, -1, x; "
             "option keywords in both cases, unknown, empty, binary; valid/unknown/empty/binary DMap names; keys incl. empty and 300 bytes; structured "
             "payloads: well-formed msgpack with absurd fields, e.g. a table pack claiming 2^62 bytes); seeded random vectors; raw byte streams; every vector "
-            "goes over TCP to a real two-member cluster, followed by PING on the same and periodically on another connection; non-trivial = the vector has arguments") % (2 if quick else 3)
+            "goes over TCP to a real two-member cluster, followed by PING on the same and periodically on another connection; non-trivial = the vector has arguments"
+            + "; requests on a connection that earlier requests put into subscriber mode; a seeded half of all vectors once more in shuffled order; the DMap the vectors name is replenished during the run and partition-addressed vectors go to both members") % (2 if quick else 3)
     design = [("Protocol", "Protocol.cfg", {})]
     e = {"VERIF_C16_ANOMALIES": 2 if quick else 3, "VERIF_C16_RANDOM": 3000 if quick else 60000, "VERIF_C16_RAW": 400 if quick else 5000}
     for m, c, kw in design:
@@ -572,7 +577,8 @@ def c10(ctx):
                         "entries have equal size (8-byte keys, 40-byte values) for the MaxInuse bound"]
     rule = ("MaxKeys in {1, 3, P-1, P, 2P, 10P} x LRUSamples in {1,2,5} and MaxInuse configurations for P in {1,7}, 1-2 members; 60-120 Puts per configuration with "
             "uniform, single-partition and overwrite-heavy key patterns; after every Put its result, an immediate Get and the Length/Inuse of every primary fragment "
-            "are logged; idle eviction: 12 keys kept warm by reads/writes every 100-200 ms, 12 left alone, window 400 ms; non-trivial = at least one eviction happened")
+            "are logged; idle eviction: 12 keys kept warm by reads/writes every 100-200 ms, 12 left alone, window 400 ms; non-trivial = at least one eviction happened"
+            + "; idle eviction on 1 member and on 2 members with 2 replicas, default and 512-byte tables, warm keys kept alive by reads only or by reads and writes")
     design = [("EvictionMC", "Eviction.cfg", {})]
     return det_run(ctx, "reg", "TestC10", "c10.ndjson", "c10.summary.json", "EvictionTrace", "EvictionTrace.cfg",
                    {"VERIF_ROUNDS": 1 if quick else 8}, design, rule, "eviction bounds", tags_of=c10_tags)
@@ -593,7 +599,8 @@ def c17(ctx):
             "1 MiB strings and byte slices, extreme times and durations, a BinaryMarshaler) plus seeded random values, written through two embedded clients, a cluster "
             "client and a pipeline, read back into the same type through a random client: directly, after a member joined (migration) and after a member was lost; "
             "keys of 1/254/255/256/257/300 bytes and entry sizes T-2..T+2 on R in {1,2} with white-box search for truncated copies; non-trivial = every distinct value "
-            "plus every size case within one byte of a limit")
+            "plus every size case within one byte of a limit"
+            + "; every value once more in ONE pipeline (Put / GetPut alternating); entry sizes from 40 bytes under the table size to 2 over it with the number of equal copies counted white box")
     return det_run(ctx, "reg", "TestC17", "c17.ndjson", "c17.summary.json", "CodecTrace", "CodecTrace.cfg",
                    {"VERIF_C17_RANDOM": 80 if quick else 3000}, [], rule, "value and key fidelity", tags_of=c17_tags)
 
@@ -610,7 +617,8 @@ def c18(ctx):
     rule = ("after a read (Get or GetPut, as bytes or as string, through the embedded or the cluster client) 2-5 follow-ups drawn from: overwrite, delete, churn of other "
             "keys + compaction + table reuse (table size 600 bytes so that a table is recycled within a few writes), the caller overwriting the returned bytes, the caller "
             "reusing the buffer it passed to Put, more reads; after every step every handle and the stored value are looked at again; N in {1,2}, R in {1,2}; "
-            "every sequence observes a handle after a later mutation of the store")
+            "every sequence observes a handle after a later mutation of the store"
+            + "; keys handed out by iterators are kept like values; pipelined Put/GetPut whose []byte argument the caller overwrites before Exec")
     return det_run(ctx, "reg", "TestC18", "c18.ndjson", "c18.summary.json", "SnapshotTrace", "SnapshotTrace.cfg",
                    {"VERIF_SEQUENCES": 40 if quick else 2000}, [], rule, "returned values are private snapshots", tags_of=c18_tags)
 
@@ -719,7 +727,8 @@ def c03(ctx):
     rule = ("seeded scenarios: start 1-3 members, R in {1,2}, single- or multi-table fragments (table 512 B); 1-3 membership events (joins; leaves/abrupt stops for R=2 once "
             "N > R); after each event: reads from every member and Put/Delete operations through random members after the push but before any table moved, after each of two "
             "single-table balancer runs, at stabilisation (with white-box copy counts) and after it; non-trivial = an operation was issued while a partition had a previous "
-            "owner holding data")
+            "owner holding data"
+            + "; a third of the Puts carry an expiry of an hour; two joins in a row before any move; for R=2 a crash of the sender or the receiver at one of the five steps of a fragment move (gate at move.exported / move.sent / merge.locked / merge.conflict / merge.done); every fourth scenario with the members' own push and balancer timers; janitor and compaction timers in the small-table clusters")
     design = [("Rebalance", "Rebalance_quick.cfg" if quick else "Rebalance_thorough.cfg", {"timeout": 2400}),
               ("RoleSwap", "RoleSwap_ordered.cfg", {})]
     # two old members swapping roles: the balancer's two independent moves leave both copies on one member for a while (D26)
@@ -734,7 +743,7 @@ def c02(ctx):
                         "keys operated on while a member is stopping are not asserted (they were not acknowledged in a healthy cluster); all other keys must be unaffected",
                         "abrupt stop = memberlist shut down without the leave broadcast followed by shutdown, inside the test process",
                         "re-stabilisation is a precondition; a time-out waiting for it is inconclusive"]
-    rule = ("seeded scenarios: N in R+1..R+2 (<= 5), R in {2,3}, read-repair on/off, 13 partitions; 90 Put/Delete operations on 30 keys through random members in the healthy "
+    rule = ("seeded scenarios: N in R..R+2 (3..5), R in {2,3}, read-repair on/off, 13 partitions; 90 Put/Delete operations on 30 keys through random members in the healthy "
             "cluster; then 1..R-1 members stop one after the other (random member or the coordinator, graceful or abrupt, at a quiescent point or while a workload runs on "
             "other keys); after each re-stabilisation every key is read from every survivor; then 40 more operations and reads; non-trivial = a stopped member held a copy "
             "of an asserted key")
